@@ -197,7 +197,7 @@ Module X2.
   Definition st := V2.state cspec.
   Definition lab := V2.label cspec.
 
-  Definition choose (p : list (N * N)) (h : hst) (st : st) : option (lab * hst) :=
+  Definition choose (ad : bool) (p : list (N * N)) (h : hst) (st : st) : option (lab * hst) :=
     match h_dying h with
     | Some a => Some (LStop a, mkH (h_gate h) None (h_nsub h) (h_actors h))
     | None =>
@@ -212,7 +212,7 @@ Module X2.
         | DApply b =>
             match nth_error (batch _ st) b with
             | Some (SetSub s a c) =>
-                Some (LApply (snd (apply_subscriber _ true (subscribers _ st) (mkEntry _ s a c))), h)
+                Some (LApply (snd (apply_subscriber _ ad (subscribers _ st) (mkEntry _ s a c))), h)
             | _ => Some (LCtl, h)
             end
         | DSeg _ | DSub _ _ _ => Some (LCtl, h)
@@ -230,24 +230,24 @@ Module X2.
 
   Definition cfg := (hst * st * list lab)%type.
 
-  Fixpoint settle (p : list (N * N)) (fuel : nat) (c : cfg) : cfg :=
+  Fixpoint settle (ad : bool) (p : list (N * N)) (fuel : nat) (c : cfg) : cfg :=
     match fuel with
     | O => c
     | S f =>
         let '(h, st, acc) := c in
-        match choose p h st with
+        match choose ad p h st with
         | None => c
         | Some (l, h') =>
-            match step _ cv true st l with
-            | Some st' => settle p f (h', st', l :: acc)
+            match step _ cv ad st l with
+            | Some st' => settle ad p f (h', st', l :: acc)
             | None => c
             end
         end
     end.
 
-  Definition fire (c : cfg) (l : lab) : cfg :=
+  Definition fire (ad : bool) (c : cfg) (l : lab) : cfg :=
     let '(h, st, acc) := c in
-    match step _ cv true st l with
+    match step _ cv ad st l with
     | Some st' => (h, st', l :: acc)
     | None => c
     end.
@@ -255,15 +255,15 @@ Module X2.
   Definition set_h (c : cfg) (h : hst) : cfg := let '(_, st, acc) := c in (h, st, acc).
   Definition get_h (c : cfg) : hst := let '(h, _, _) := c in h.
 
-  Definition do_op (p : list (N * N)) (fuel : nat) (c : cfg) (o : op) : cfg :=
+  Definition do_op (ad : bool) (p : list (N * N)) (fuel : nat) (c : cfg) (o : op) : cfg :=
     let h := get_h c in
     match o with
-    | OPub m => fire c (LPublish m)
+    | OPub m => fire ad c (LPublish m)
     | OSub a k =>
-        set_h (fire c (LSubscribe (h_nsub h) a k))
+        set_h (fire ad c (LSubscribe (h_nsub h) a k))
               (mkH (h_gate h) (h_dying h) (h_nsub h + 1) (h_actors h ++ [a]))
-    | OSettle => settle p fuel c
-    | OKill a => settle p fuel (fire (settle p fuel c) (LStop a))
+    | OSettle => settle ad p fuel c
+    | OKill a => settle ad p fuel (fire ad (settle ad p fuel c) (LStop a))
     | OHold a => set_h c (mkH (updf (h_gate h) a (Some O)) (h_dying h) (h_nsub h) (h_actors h))
     | OGive a n =>
         set_h c (mkH (match h_gate h a with
@@ -271,15 +271,15 @@ Module X2.
                       | None => h_gate h
                       end) (h_dying h) (h_nsub h) (h_actors h))
     | OOpen a => set_h c (mkH (updf (h_gate h) a None) (h_dying h) (h_nsub h) (h_actors h))
-    | OStart a => settle p fuel (fire c (LStart a))
-    | OFailStart a => settle p fuel (fire c (LStop a))
-    | ODrop => fire c LClose
+    | OStart a => settle ad p fuel (fire ad c (LStart a))
+    | OFailStart a => settle ad p fuel (fire ad c (LStop a))
+    | ODrop => fire ad c LClose
     end.
 
-  Definition exec (sc : scen) : cfg :=
-    fold_left (do_op (sc_poison sc) (nat_fuel (sc_ops sc))) (sc_ops sc) (h0, init _, []).
+  Definition exec (ad : bool) (sc : scen) : cfg :=
+    fold_left (do_op ad (sc_poison sc) (nat_fuel (sc_ops sc))) (sc_ops sc) (h0, init _, []).
 
-  Definition trace (sc : scen) : list lab := let '(_, _, acc) := exec sc in rev acc.
+  Definition trace (ad : bool) (sc : scen) : list lab := let '(_, _, acc) := exec ad sc in rev acc.
 
   Fixpoint sub_actors (ops : list op) : list N :=
     match ops with
@@ -288,8 +288,8 @@ Module X2.
     | _ :: t => sub_actors t
     end.
 
-  Definition result (sc : scen) : list (list N) :=
-    let '(_, st, _) := exec sc in
+  Definition result (ad : bool) (sc : scen) : list (list N) :=
+    let '(_, st, _) := exec ad sc in
     map (fun sa => received _ st (N.of_nat (fst sa)) (snd sa))
         (combine (seq 0 (length (sub_actors (sc_ops sc)))) (sub_actors (sc_ops sc))).
 End X2.
@@ -349,8 +349,18 @@ Definition clean (sc : scen) (a : N) (after : list op) : bool :=
   && gate_open_at_end a ops true && started a ops
   && Nat.eqb (kills a (sc_ops sc)) (kills a after).     (* not already stopped when subscribed *)
 
-Definition check_sub (v2 : bool) (cap : nat) (sc : scen) (a : N) (c : cspec)
-           (after : list op) (got : list N) : bool :=
+(* allow_duplicate_subscription = false: a later subscription of the same actor replaces this
+   one at its position in the command stream; what this one is owed ends there *)
+Fixpoint upto_resub (a : N) (ops : list op) : list op :=
+  match ops with
+  | [] => []
+  | OSub a' c :: t => if a' =? a then [] else OSub a' c :: upto_resub a t
+  | o :: t => o :: upto_resub a t
+  end.
+
+Definition check_sub (v2 nd : bool) (cap : nat) (sc : scen) (a : N) (c : cspec)
+           (after0 : list op) (got : list N) : bool :=
+  let after := if nd then upto_resub a after0 else after0 in
   let all := filter_map (cv c) (pubs_ops after) in
   let '(ws, _) := windows (upto_kill a after) [] in
   let required :=
@@ -358,21 +368,25 @@ Definition check_sub (v2 : bool) (cap : nat) (sc : scen) (a : N) (c : cspec)
   is_sublist got all                                   (* published after subscription, in order, each at most once *)
   && (if nodupb all then nodupb got else true)          (* never twice *)
   && (if v2 then is_prefix got all else true)           (* v2: none skipped *)
-  && (if clean sc a after then is_sublist required got else true).   (* complete up to the ring size, until a is stopped *)
+  && (if clean sc a after0 then is_sublist required got else true).   (* complete up to the ring size, until a is stopped *)
 
-Fixpoint check_ops (v2 : bool) (cap : nat) (sc : scen) (ops : list op) (res : list (list N)) : bool :=
+Fixpoint check_ops (v2 nd : bool) (cap : nat) (sc : scen) (ops : list op) (res : list (list N)) : bool :=
   match ops with
   | [] => match res with [] => true | _ => false end
   | OSub a c :: t =>
       match res with
-      | got :: res' => check_sub v2 cap sc a c t got && check_ops v2 cap sc t res'
+      | got :: res' => check_sub v2 nd cap sc a c t got && check_ops v2 nd cap sc t res'
       | [] => false
       end
-  | _ :: t => check_ops v2 cap sc t res
+  | _ :: t => check_ops v2 nd cap sc t res
   end.
 
 Definition check_C16 (v2 : bool) (cap : nat) (sc : scen) (res : list (list N)) : bool :=
-  check_ops v2 cap sc (sc_ops sc) res.
+  check_ops v2 false cap sc (sc_ops sc) res.
+
+(* v2 port created with allow_duplicate_subscription = false *)
+Definition check_C16_nodup (cap : nat) (sc : scen) (res : list (list N)) : bool :=
+  check_ops true true cap sc (sc_ops sc) res.
 
 (* shorthand used by the generated cases: n consecutive publishes *)
 Definition burst (from : N) (n : nat) : list op :=
